@@ -25,7 +25,7 @@ def cells(tier):
                 if q and gn == "M3/1" and hn == "M3/2":
                     continue
                 for on, o in {"cgroup": cgroup("G"), "call": CALL}.items():
-                    acts = [g, h, [o, A("G2", 1, name="gname", reuse=True)]]
+                    acts = [g, h, [o, A("G2", 1, name="gname", reuse=True, needs_cancelled="G")]]
                     sc = scen(pool(size), acts, outcomes=["ret"], ecb="plain", ccb="plain")
                     out.append(cell(f"s{size} G={gn} H={hn} {on}+reuse", sc, MON))
         # issued from user code
